@@ -94,6 +94,8 @@ fn profile(opts: &Opts) -> TreeProfile {
         unsupported: opts.get("unsupported").is_some(),
         exotic: opts.get("exotic").is_some(),
         hostile_strings: opts.get("hostile").is_some(),
+        no_direct: opts.get("no-direct").is_some(),
+        kind: match opts.get("profile") { Some("c09") => "c09".into(), Some("actions") => "actions".into(), Some("numeric") => "numeric".into(), _ => String::new() },
     }
 }
 
@@ -117,9 +119,9 @@ pub fn record_compile(opts: &Opts) -> i32 {
     let mut out = out.lock();
     for _ in 0..count {
         let sz = 1 + rng.below(size);
-        let t = rand_tree(&mut rng, sz, &p);
+        let t = if opts.get("profile") == Some("chain") { let n = 1 + size / 2 + rng.below(size / 2 + 1); rand_chain(&mut rng, n) } else { rand_tree(&mut rng, sz, &p) };
         let mut o = lipe_find_parser::RunOptions::default();
-        if rng.chance(1, 3) { o.threads = Some(rand_u32(&mut rng)); }
+        if rng.chance(1, 3) || opts.get("threads").is_some() && rng.chance(3, 4) { o.threads = Some(rand_u32(&mut rng)); }
         if rng.chance(1, 4) { o.depth = true; }
         let c = run_compile(&t, &o, &paths);
         emit(&mut out, &json!({"t": expr_to_json(&t), "o": opts_to_json(&o), "c": c}));
@@ -136,7 +138,7 @@ pub fn compile_trees(opts: &Opts) -> i32 {
     let mut out = out.lock();
     for line in stdin.lock().lines() {
         let line = match line { Ok(l) => l, Err(_) => continue };
-        let js = if line.starts_with('{') { line.clone() } else { match tlc_unquote(&line) { Some(j) => j, None => { eprintln!("TLC {}", line); continue; } } };
+        let js = if line.starts_with('{') { line.clone() } else { match tlc_unquote(&line) { Some(j) => j, None => { if line.starts_with("Error") || line.contains("xception") { eprintln!("TLC {}", line); } continue; } } };
         let mut v: Value = match serde_json::from_str(&js) { Ok(v) => v, Err(_) => continue };
         let t = match v.get("t").and_then(json_to_expr) { Some(t) => t, None => { eprintln!("BADTREE {}", js); continue; } };
         let o = v.get("o").and_then(json_to_opts).unwrap_or_default();
@@ -176,6 +178,29 @@ pub fn record_api(opts: &Opts) -> i32 {
             let c = run_compile(t, o, &paths);
             seq += 1;
             emit(&mut out, &json!({"ev":"compile","proc":proc_id,"seq":seq,"i":cps(input),"t":expr_to_json(t),"o":opts_to_json(o),"c":c}));
+        }
+    }
+    0
+}
+
+/// compile-text: inputs {"i": code points} -> parse, compile, log (used by probes and replay)
+pub fn compile_text(opts: &Opts) -> i32 {
+    let paths = paths_of(opts);
+    let path = opts.str("from", "/dev/stdin");
+    let text = std::fs::read_to_string(path).unwrap_or_default();
+    let out = std::io::stdout();
+    let mut out = out.lock();
+    for line in text.lines() {
+        let v: Value = match serde_json::from_str(line) { Ok(v) => v, Err(_) => continue };
+        if let Some(input) = v.get("i").and_then(from_cps) {
+            let obs = run_parse(&input);
+            match &obs {
+                ParseOut::Ok(o, t) => {
+                    let c = run_compile(t, o, &paths);
+                    emit(&mut out, &json!({"i": cps(&input), "t": expr_to_json(t), "o": opts_to_json(o), "c": c}));
+                }
+                _ => emit(&mut out, &json!({"i": cps(&input), "obs": parse_out_json(&obs)})),
+            }
         }
     }
     0
